@@ -102,11 +102,14 @@ pub struct Case {
     pub wd_action: String,
     pub safe: Vec<(String, String, u64)>, // (address, type, raw)
     pub extra_failing_write_drv: Option<usize>, // a driver whose write_outputs fails from the fault cycle on
+    /// restart the (healthy) resource after the healthy cycles and run one more cycle before the fault:
+    /// configuration (fault policy, watchdog action, safe state) has to survive a restart
+    pub restart_before: Option<String>,
 }
 
 fn case_json(c: &Case) -> J {
     json!({"fault": c.fault, "cycle": c.cycle, "policy": c.policy, "wd": c.wd_action,
-           "safe": c.safe.iter().map(|(a, t, r)| json!([a, t, r.to_string()])).collect::<Vec<_>>(), "failing_write_drv": c.extra_failing_write_drv})
+           "safe": c.safe.iter().map(|(a, t, r)| json!([a, t, r.to_string()])).collect::<Vec<_>>(), "failing_write_drv": c.extra_failing_write_drv, "restart_before": c.restart_before})
 }
 fn parse_case(v: &J) -> Case {
     Case {
@@ -116,6 +119,7 @@ fn parse_case(v: &J) -> Case {
         wd_action: v["wd"].as_str().unwrap().to_string(),
         safe: v["safe"].as_array().unwrap().iter().map(|s| (s[0].as_str().unwrap().to_string(), s[1].as_str().unwrap().to_string(), s[2].as_str().unwrap().parse().unwrap())).collect(),
         extra_failing_write_drv: v["failing_write_drv"].as_u64().map(|x| x as usize),
+        restart_before: v["restart_before"].as_str().map(|x| x.to_string()),
     }
 }
 
@@ -180,6 +184,14 @@ pub fn run_case(c: &Case) -> Result<Stats, (String, String)> {
         let r = h.cycle();
         if let Some(e) = r.errors.first() {
             return Err(("healthy-cycle-error".into(), format!("cycle {i} before the fault raised {e:?}")));
+        }
+    }
+    if let Some(mode) = &c.restart_before {
+        let m = if mode == "cold" { trust_runtime::RestartMode::Cold } else { trust_runtime::RestartMode::Warm };
+        h.runtime_mut().restart(m).map_err(|e| ("restart-before|error".to_string(), format!("{e:?}")))?;
+        h.advance_time(Duration::from_millis(1));
+        if let Some(e) = h.cycle().errors.first() {
+            return Err(("healthy-cycle-error".into(), format!("cycle after the {mode} restart raised {e:?}")));
         }
     }
     let _ = log.take();
@@ -340,7 +352,13 @@ pub fn all_cases(rng: &mut Rng, thorough: bool) -> Vec<Case> {
                                 continue;
                             }
                             let _ = mi;
-                            out.push(Case { fault: f.clone(), cycle, policy: policy.into(), wd_action: wd.into(), safe: m.clone(), extra_failing_write_drv: failing });
+                            out.push(Case { fault: f.clone(), cycle, policy: policy.into(), wd_action: wd.into(), safe: m.clone(), extra_failing_write_drv: failing, restart_before: None });
+                            // the same fault point after a warm / cold restart of the healthy resource (one representative cycle count)
+                            if cycle == 1 && failing.is_none() {
+                                for mode in ["warm", "cold"] {
+                                    out.push(Case { fault: f.clone(), cycle, policy: policy.into(), wd_action: wd.into(), safe: m.clone(), extra_failing_write_drv: None, restart_before: Some(mode.into()) });
+                                }
+                            }
                         }
                     }
                 }
@@ -401,7 +419,11 @@ fn one(sh: &mut Shard, c: &Case) {
                     let p: Vec<&str> = c.fault.split(':').collect();
                     if p[0] == "stmt" { format!("stmt-{}", p[2]) } else { p[0].to_string() }
                 };
-                let extra = if c.extra_failing_write_drv.is_some() { "|failing-writer" } else { "" };
+                let extra = match (c.extra_failing_write_drv.is_some(), c.restart_before.is_some()) {
+                    (true, _) => "|failing-writer",
+                    (_, true) => "|after-restart",
+                    _ => "",
+                };
                 sh.violation(format!("{sig}|{fclass}{extra}"), d, case.clone());
             }
         }
